@@ -599,16 +599,25 @@ func optOversize(r *core.Run) {
 	tag := uint16(1 + c.Intn(0x2000))
 	r.Fault("oversize_value")
 	r.Event("oversize value of %d octets", l)
+	// in half of the runs the oversize value has company: one or two ordinary parameters in the same set, emitted
+	// before or behind it in the order the seed chooses
+	company := int(r.Cfg.Index % 3)
 	for _, kind := range []string{"smpp.TLV", "smgp.Option"} {
 		var ser []byte
 		p := r.Call(kind+".Bytes", func() {
 			if kind == "smpp.TLV" {
 				var t smpp.TLVs
 				t.SetTLV(smpp.NewTLV(tag, val))
+				for k := 0; k < company; k++ {
+					t.SetTLV(smpp.NewTLV(tag+uint16(1+k), []byte{byte(k), 0x55}))
+				}
 				ser = t.Bytes()
 			} else {
 				var o smgp.Options
 				o.Add(smgp.NewOption(smgp.Tag(tag), val))
+				for k := 0; k < company; k++ {
+					o.Add(smgp.NewOption(smgp.Tag(tag+uint16(1+k)), []byte{byte(k), 0x55}))
+				}
 				ser = o.Serialize()
 			}
 		})
@@ -620,6 +629,26 @@ func optOversize(r *core.Run) {
 			continue // refused
 		}
 		ts, ok := splitTriplets(ser)
+		if ok && company > 0 {
+			// the companions must be there, whole; the oversize one is looked at alone below
+			var big []spec.Triplet
+			seen := 0
+			for _, t := range ts {
+				if t.Tag == tag {
+					big = append(big, t)
+				} else if t.Tag > tag && t.Tag <= tag+uint16(company) && len(t.Val) == 2 && t.Val[1] == 0x55 {
+					seen++
+				}
+			}
+			if seen != company && len(big) <= 1 {
+				r.Fail("C16", "oversize", kind+".Bytes", "company-lost", "a set of one %d-octet value and %d ordinary parameters serialised to %d triplets of which %d are the ordinary ones", l, company, len(ts), seen)
+				continue
+			}
+			ts = big
+			if len(ts) == 0 {
+				continue // the oversize one was left out: refused
+			}
+		}
 		if !ok || len(ts) != 1 {
 			r.Fail("C16", "oversize", kind+".Bytes", "length-disagrees", "a %d-octet value serialised to %d octets that are not one complete triplet (length field disagrees with the emitted value)", l, len(ser))
 			continue
